@@ -37,6 +37,8 @@ def to_ext_layout(L, pick):
     def fix(n):
         if n.get("c") == "Numpy" and "shape" not in n:
             n["shape"] = [len(n["d"])]
+        if n.get("c") == "Numpy" and len(n["shape"]) == 1 and n["shape"][0] >= 1 and "p" not in n and pick([0, 0, 0, 1]) == 1:
+            n["view"] = "step2"                       # a non-contiguous one-dimensional leaf (x[1::2] of a wider NumPy array)
         if n.get("c") == "Numpy" and len(n["shape"]) >= 2 and min(n["shape"][:2]) > 1 and pick([0, 1, 2]) == 2:
             n["order"] = "F"                          # a column-major (Fortran-ordered) buffer holding the same values
         if "x" in n:
